@@ -75,8 +75,8 @@ static int loop_start(m_ctx_t *c, int max_events) {
         /* Publish loop started system message */
         tell_system_pubsub_msg(NULL, c, NULL, M_PS_CTX_STARTED);
         
-        /* Start the tick source right now! */
-        if (c->tick.src) {
+        /* Start the tick source right now! (unless a callback run above just set it: then it is already polled) */
+        if (c->tick.src && !c->tick.src->ev) {
             poll_set_new_evt(&c->ppriv, c->tick.src, ADD);
         }
     }
